@@ -14,6 +14,7 @@ PARTIAL = [
     "evaluation with find_span_binsearch SELECTED is now an end-to-end theorem (C17 curve_eval_binsearch_selected, rational_curve_eval_binsearch_selected, surface_eval_binsearch_selected, volume_eval_binsearch_selected, curve_derivatives_binsearch_selected; binsearch_span_found): on the closed domain of a knot vector with non-empty last span the point computed on the span the binary search returns is the Cox-de Boor (tensor) sum (cdbSpan of that span; cdb below the domain end), under BinTolOk = tolerance in (0, 1/2) and the F-17b separation hypothesis per direction (holds for every parameter when the last span is longer than the tolerance); without it the evaluated point differs (curve_eval_binsearch_refuted_F17b) - supersedes the last clause of the first item; rational surfaces / volumes with the binary search: only through binsearch_selected_any_span_function (span equality), no separate quotient statement",
 ]
 PARTIAL.append("knot vectors with an empty last domain span (F-01b, repaired): evaluate_single is now covered by theorems about the evaluation through the literal model of the REPAIRED search (curvePointR / surfacePointR / volumePointR = span found by findSpanLinearR, Model/SpanR.lean): curve_eval_repaired_closed, rational_curve_eval_repaired_closed, surface_ / volume_eval_repaired_closed, rational_surface_ / rational_volume_eval_repaired_closed (every sorted knot vector with U_p < U_n per direction, whole closed domain: the span found is legal, non-empty, contains the parameter; point = Cox-de Boor (tensor) sum with the recursion of that span, cdb itself below the domain end, the LAST NON-EMPTY span at U_n; rational quotient with positive weight), eval_repaired_eq_eval (= curvePoint / surfacePoint / volumePoint under KnotsOk), witness curve_eval_repaired_witness_F01b; correspondence at u = U_n too (stream empty-last-span: kind end-left-limit now has a model line cevalr / sevalr / vevalr besides the oracle; ordinary shapes: kind singler). LIFTED to the repaired search too (Model/SpanRGrid.lean: curveGridR / surfaceGridR / volumeGridR / curveDersR = the models of evaluate_list, the sampled grids and derivatives with findSpanLinear replaced by findSpanLinearR, per-span functions unchanged): curve_list_repaired_eq_single, surface_grid_repaired_index, volume_grid_repaired_index (size, ordering, entry = R point evaluation at its parameters), curve_ / surface_ / volume_grid_repaired_entry_eq_definition and rational_curve_ / rational_surface_ / rational_volume_grid_repaired_entry_eq_quotient (EVERY sorted knot vector with U_p < U_n per direction, parameters in the closed domain: entry = Cox-de Boor (tensor) sum / quotient with the recursion of the non-empty span the repaired search finds; cdb itself below the domain end), grid_repaired_corners (linspace lists: first / last grid point = R evaluation at the start / end corner, curves, surfaces, volumes), curve_grid_repaired_ends_on_left_limit, surface_grid_repaired_ends_on_left_limit (last grid point = sum with the recursion of the LAST NON-EMPTY span(s) at U_n, first = Cox-de Boor sum at U_p), grid_repaired_eq_grid + sampled_params_in_domain (= curveGrid / surfaceGrid / volumeGrid under KnotsOk for parameter lists in the closed domain), curve_ders0_repaired_eq_single, kernel-decided witness grid_repaired_witness_F01b; correspondence AT U_n (stream empty-last-span): kinds end-grid-r (cgridr / sgridr / vgridr: the whole evalpts), clistr (curves: the whole evaluate_list through curveGridR) / end-list-r (surfaces, volumes: entry of evaluate_list against sevalr / vevalr), end-ders-r (derivatives of order 0..2 against cdersr / sdersr), each with a model line AND the exact oracle (left-limit values); ordinary shapes: kinds gridr, clistr. Still partial: no separate ends-on-left-limit theorem for volumes (it is grid_repaired_corners composed with volume_eval_repaired_closed and C03.findSpanLinearR_spec); the grid theorems take the linspace parameter lists (linspaceCore) as given - the tolerance branch of linalg.linspace and the sample-size rounding (F-01) stay on the correspondence / oracle side; evaluate_list of surfaces / volumes has no list model of its own (entry-wise comparison, as for the ops without step back); the ops of the search WITHOUT step back (ceval, cgrid, cders, ...) still answer ERR when the span they find is empty, and span_found_nonempty_of_knotsOk / span_found_empty_without_knotsOk remain as the statements about that search")
+PARTIAL.append("vanishing weight function (statement audit 5): the setters accept weights of mixed sign; where the weight function W vanishes inside the domain the rational evaluators raise ZeroDivisionError - the rational ops (ceval / seval / veval, the R twins, grids, clistr, clen) answer ERR when the evaluated weight is 0 (Drv.wZero), the rational theorems assume positive weights; stream zero-weight (degree-1 line / bilinear patch with weights 1 and w < 0, parameter on and off the zero set of W)")
 ASSUMPTIONS = ["parameters at the domain end are evaluated on the last non-empty span (left limit), as the library does"]
 
 
@@ -218,42 +219,23 @@ def gen(rng, tier):
             else:
                 ln = "sdersr %s 0 %s %s %s %d" % ('1' if d['rat'] else '0', S.args(d)[2:], fr(pe[0]), fr(pe[1]), order)
             out.append(Case('end-ders-r', ln, dict(shape=d, params=pe, order=order), tags=('empty-last-span', 'at-end')))
+    # malformed (statement audit 5, vanishing weight function): weights of MIXED SIGN are accepted by the setters; at a
+    # parameter where the weight function W vanishes the rational evaluators divide by zero (ZeroDivisionError) - the ops
+    # answer ERR (wZero), both sides refuse, nothing for the oracle to judge; next to it a parameter where W != 0 (judged)
+    for _ in range(6 if tier == 'quick' else 40):
+        d, zero, other = S.mixed_sign_shape(rng)
+        for ps, tag in ((zero, 'zero-weight'), (other, 'mixed-sign-nonzero')):
+            line = "%s %s %s" % (OPS[d['kind']], S.args(d), " ".join(fr(x) for x in ps))
+            out.append(Case('single', line, dict(shape=d, params=ps), tags=(tag,)))
+            out.append(Case('singler', "%s %s %s" % (OPSR[d['kind']], S.args(d), " ".join(fr(x) for x in ps)), dict(shape=d, params=ps), tags=(tag,)))
+            if d['kind'] == 'curve':
+                out.append(Case('clistr', "clistr %s %s" % (S.args(d), show_list([other[0], ps[0]])), dict(shape=d, plist=[other, ps]), tags=(tag,)))
     # floating point: the requested sample size is honoured for every n (rounding of 1/delta)
     out.append(Case('float-sizes', None, dict(lo=2, hi=130 if tier == 'quick' else 400)))
     return out
 
 
-def _empty_last_shape(rng):
-    """(definition, index of the direction with the empty last span)"""
-    r = rng.random()
-    rat = rng.random() < .4
-    if r < .5:
-        p = rng.randint(1, 4)
-        kv, n = G.knots_empty_last(rng, p)
-        P = G.points(rng, n, rng.choice([2, 3]))
-        if rat:
-            P = G.homogeneous(P, G.weights(rng, n))
-        return dict(kind='curve', rat=rat, p=p, kv=kv, n=n, P=P, dim=len(P[0]) - (1 if rat else 0)), 0
-    nd = 2 if r < .85 else 3
-    k = rng.randrange(nd)
-    degs, kvs, sizes = [], [], []
-    for i in range(nd):
-        p = rng.randint(1, 3 if nd == 2 else 2)
-        if i == k:
-            kv, n = G.knots_empty_last(rng, p)
-        else:
-            kv, n = G.knots(rng, p, max_interior=2 if nd == 2 else 1, allow_range=False, clamped=rng.random() < .7)
-        degs.append(p); kvs.append(kv); sizes.append(n)
-    tot = 1
-    for n in sizes:
-        tot *= n
-    P = G.points(rng, tot, 3)
-    if rat:
-        P = G.homogeneous(P, G.weights(rng, tot))
-    if nd == 2:
-        return dict(kind='surface', rat=rat, pu=degs[0], pv=degs[1], kvu=kvs[0], kvv=kvs[1], su=sizes[0], sv=sizes[1], P=P, dim=3), k
-    return dict(kind='volume', rat=rat, pu=degs[0], pv=degs[1], pw=degs[2], kvu=kvs[0], kvv=kvs[1], kvw=kvs[2],
-                su=sizes[0], sv=sizes[1], sw=sizes[2], P=P, dim=3), k
+_empty_last_shape = S.empty_last_shape      # shared with c17.py (binary search selected on such shapes)
 
 
 def _oracle_end_left_limit(c):
@@ -367,6 +349,8 @@ def impl(c):
 
 
 def oracle(c):
+    if 'zero-weight' in c.tags:
+        return None        # W(u) = 0: the rational evaluation raises ZeroDivisionError, ERR on both sides (malformed stream)
     if c.kind == 'end-left-limit':
         return _oracle_end_left_limit(c)
     d = c.data.get('shape')
